@@ -235,6 +235,20 @@ fn scn_configs(o: &Opts, tr: &mut Tr, prop: &str) {
             }
         }
     }
+    if prop == "C11" || prop == "C09" {
+        // a small window fixed at creation, then a setter call (accepted for ZLibIgnoreChecksum, refused
+        // for Zlib when the level would need a larger window)
+        for wb in 8..=14u8 {
+            for lvl in [1u8, 2, 6, 9] {
+                for api in ["wsetI", "wsetZ"] {
+                    let win = 1usize << wb;
+                    let data = planted_at((win + win / 2 + 13).min(32768), &mut r);
+                    let cfg = Cfg { zlib: true, level: lvl, strat: 0, wbits: wb, api };
+                    stream_comp_case(tr, &format!("{}-w{}-l{}", api, wb, lvl), prop, &data, &cfg, &big_out_sched(), &mut r, "planted");
+                }
+            }
+        }
+    }
     if prop == "C11" {
         // flush points (call boundaries) followed by data that also occurs 1..7 bytes beyond the
         // declared window: whatever the match finder's bookkeeping looks like when a call resumes,
